@@ -178,8 +178,8 @@ def effectivenessViolation (n : Nat) (t : PT Q) : Option String :=
       let mags := ((nd.path.flatMap (fun h => h.mat.flatMap id)).filter (· != 0)).map absQ
       let hi := mags.foldl max 0
       let lo := mags.foldl min hi
-      let ill := lo > 0 && hi / lo ≥ (2 : Q) ^ 20
-      some s!"node {nd.idx} (state {showState nd.state}) remains although its path region is empty (certified, margin 1e-6){if ill then " (ill-scaled system: coefficient magnitudes differ by a factor ≥ 2^20)" else ""}"
+      let ill := lo > 0 && (hi / lo ≥ (2 : Q) ^ 20 || hi ≥ (2 : Q) ^ 16)
+      some s!"node {nd.idx} (state {showState nd.state}) remains although its path region is empty (certified, margin 1e-6){if ill then " (ill-scaled system: coefficients of magnitude ≥ 2^16, or magnitudes differing by a factor ≥ 2^20)" else ""}"
     else none)
 
 mutual
@@ -229,6 +229,7 @@ inductive Op where
   | arithTree (op : ArithOp) (g : PT Q)
   | arithAff (op : ArithOp) (treeLeft : Bool) (a : Aff Q)
   | neg
+  | plant (idx : Nat) (pts : List (List Q))   -- the user appends witnesses to the public cache of a node
 
 def pOperand : P (PT Q) := do
   let k ← tok
@@ -255,6 +256,11 @@ def pOp : P (Op × String) := do
   | "elim" => pure (.elim, name)
   | "reduce" => pure (.reduce, name)
   | "neg" => pure (.neg, name)
+  | "plant" =>
+    let idx ← pNat
+    let k ← pNat
+    let pts ← pMany k pVec
+    pure (.plant idx pts, name)
   | "add" | "sub" | "mul" | "div" =>
     let _variant ← pNat
     let td ← pTree
@@ -299,6 +305,10 @@ def modelStep (tol : Q) (n : Nat) (t : PT Q) (op : Op) (s : OState) : Option (PT
   | .arithAff op treeLeft a =>
     (some (PT.mapTerminals (fun f => if treeLeft then op.onAff f a else op.onAff a f) t), s)
   | .neg => (some (PT.mapTerminals Aff.neg t), s)
+  | .plant idx pts =>
+    (some (t.modifyAt (fun nd => match nd.val.state with
+      | .witness ws => .node nd.idx ⟨nd.val.aff, .witness (ws ++ pts)⟩ nd.kids
+      | _ => nd) idx), s)
 
 /-- what the step must compute at input `x`, stated directly (the specification side) -/
 def specStep (t : PT Q) (op : Op) (x : List Q) : Option (List Q) :=
@@ -314,6 +324,7 @@ def specStep (t : PT Q) (op : Op) (x : List Q) : Option (List Q) :=
   | .arithAff op treeLeft a =>
     (PT.termAt t x).map (fun u => (if treeLeft then op.onAff u a else op.onAff a u).apply x)
   | .neg => (PT.eval t x).map vneg
+  | .plant _ _ => PT.eval t x
 
 def opProperty : Op → String
   | .applyFunc _ => "C02"
@@ -324,6 +335,7 @@ def opProperty : Op → String
   | .arithTree _ _ => "C07"
   | .arithAff _ _ _ => "C07"
   | .neg => "C07"
+  | .plant _ _ => "C05"
 
 def isPruning : Op → Bool
   | .compose true _ => true
